@@ -671,9 +671,12 @@ def weave(blk, real_ct):
         how, j = pos_map.get(i, ("at", len(b)))
         if STMT_ADD.match(atext):
             j = snap(j)
-            if j >= len(b):
+            stmt_block = bool(getattr(blk, "stmts", None))
+            if j >= len(b) and stmt_block:
+                j = len(b)              # statement-level block: there is no closing brace, the end is a statement position
+            elif j >= len(b):
                 j = len(b) - 1          # never after the item's closing brace
-            if j == len(b) - 1 and j > 0 and b[j - 1] not in BOUND:
+            if not stmt_block and j == len(b) - 1 and j > 0 and b[j - 1] not in BOUND:
                 # it would sit between a tail expression and the closing brace: there is no statement position left for it
                 dropped += 1
                 continue
